@@ -63,7 +63,32 @@ func (o *C12Oracle) After(r *Runner, kind string, op Op, started bool) {
 			}
 		}
 	}
+	// an evicted file every cached chunk of which was pinned through the file's own context: each such pin
+	// takes the chunk out of the file's gc counter, so the file should not have been a candidate at all
+	fullyPinned := map[string]bool{}
+	for root := range evicted {
+		n := 0
+		ok := !r.Inflated[root]
+		for c := range r.CachedUnder[root] {
+			if !b.Data[c] {
+				continue
+			}
+			n++
+			if b.Pin[c] == 0 || r.CtxPins[root][c] <= 0 {
+				ok = false
+			}
+		}
+		fullyPinned[root] = ok && n > 0
+	}
 	class := func(addr string) string {
+		for root := range evicted {
+			if !fullyPinned[root] {
+				continue
+			}
+			if addr == root || len(r.filesWith(addr, func(rt string) bool { return rt == root })) > 0 {
+				return "evicted-file-fully-pinned-through-its-context"
+			}
+		}
 		if evicted[addr] {
 			return "root-of-evicted-file"
 		}
